@@ -9,6 +9,13 @@ For each engine it regenerates, in lean/FairModel/Generated/AdvProjection.lean,
   * `<eng>Tiny : TinyKind`     which `tiny` regulariser is added to the float32 norm
         finfo(float).tiny / finfo(float64).tiny  (underflows to 0 in float32) -> float64
         finfo(float32).tiny / finfo(<tensor>.dtype).tiny                      -> float32
+  * `<eng>Norm : NormKind`     which norm normalises dW_LA[i] (see `classify_norm`)
+        torch.norm(g) / g.norm() / torch.linalg.norm(g) / torch.linalg.vector_norm(g) / tensorflow.norm(g) (no order, or
+        order 2 / 'fro' / 'euclidean' WITHOUT dim/axis), sqrt(sum(g*g))            -> frobenius (2-norm of the flattening)
+        the same functions with order 1 (no dim/axis), sum(abs(g))                 -> l1Flat
+        the same functions with order inf (no dim/axis), max(abs(g))               -> maxAbs
+        torch.linalg.norm(g, 2) / matrix_norm / 'nuc' / dim= / axis= / keepdim= / any other order: REFUSED, the kind is
+        named in the message (spectral, nuclear, per-axis, rank-dependent): the model (exact rationals) cannot express them
   * `<eng>Unit`, `<eng>Grad`   the per-coordinate arithmetic of the normalise and combine lines.
 Any other shape is refused (Untranslatable)."""
 import ast
@@ -30,10 +37,13 @@ PINNED_LOCALS = {
     "TensorflowEngine": ["tape", "Y_hat", "LP", "A_hat", "LA", "dW_LP", "dU_LA", "dW_LA", "i", "unit_dW_LA", "proj"],
 }
 PURE_TENSOR = ("norm", "sum", "mul", "multiply", "inner", "clone", "detach", "finfo", "dot", "vdot", "flatten", "ravel",
-               "reduce_sum", "cat", "concat")
+               "reduce_sum", "cat", "concat", "vector_norm", "matrix_norm", "abs", "max", "amax", "sqrt", "square", "pow",
+               "reduce_max")
 # generated definition -> (emitted term, source line quoted in the doc comment) for the pinned source; a definition whose
 # lifted term is the pinned one (modulo operand order of `+` / `*`) is emitted with the pinned term and quotation
 PINNED_DEFS = {
+    "torchNorm": (".frobenius", "unit_dW_LA = dW_LA[i] / (torch.norm(dW_LA[i]) + torch.finfo(torch.float32).tiny)"),
+    "tfNorm": (".frobenius", "unit_dW_LA = dW_LA[i] / (tensorflow.norm(dW_LA[i]) + finfo(float32).tiny)"),
     "torchInner": (".frobenius", "proj = torch.sum(unit_dW_LA * dW_LP[i])"),
     "torchTiny": (".float32", "unit_dW_LA = dW_LA[i] / (torch.norm(dW_LA[i]) + torch.finfo(torch.float32).tiny)"),
     "torchUnit": ("(dW_LA / (norm + tiny))", None),
@@ -149,6 +159,149 @@ def classify_tiny(node):
     raise _U(f"C16 lifter: regulariser of unknown shape: {_src(node)}")
 
 
+NORM_FUNCS = ("torch.norm", "tensorflow.norm", "tf.norm", "torch.linalg.norm", "torch.linalg.vector_norm", "tensorflow.linalg.norm",
+              "tf.linalg.norm")
+MATRIX_NORM_FUNCS = ("torch.linalg.matrix_norm",)
+SQRT_FUNCS = ("torch.sqrt", "tensorflow.sqrt", "tf.sqrt", "tensorflow.math.sqrt", "tf.math.sqrt")
+SUM_FUNCS = ("torch.sum", "tensorflow.reduce_sum", "tf.reduce_sum", "tensorflow.math.reduce_sum", "tf.math.reduce_sum")
+MAX_FUNCS = ("torch.max", "torch.amax", "tensorflow.reduce_max", "tf.reduce_max", "tensorflow.math.reduce_max", "tf.math.reduce_max")
+ABS_FUNCS = ("torch.abs", "torch.absolute", "tensorflow.abs", "tf.abs", "tensorflow.math.abs", "tf.math.abs")
+SQUARE_FUNCS = ("torch.square", "tensorflow.square", "tf.square", "tensorflow.math.square", "tf.math.square")
+INF_SRCS = ("float('inf')", "math.inf", "torch.inf", "numpy.inf", "np.inf", "inf")
+
+
+def _is_g(node):
+    return _is_sub(node, "dW_LA")
+
+
+def _order_kind(node, fn, where):
+    """the order argument (`p` / `ord`) of a norm call WITHOUT dim/axis -> NormKind, or refuse naming the kind"""
+    s_ = _src(node)
+    if isinstance(node, ast.Constant) and node.value is None:
+        return "frobenius"
+    if isinstance(node, ast.Constant) and not isinstance(node.value, bool) and isinstance(node.value, (int, float)):
+        if node.value == 2:
+            if fn in ("torch.linalg.norm",):
+                raise _U(f"C16 lifter: {where}: `{fn}(.., 2)` is the SPECTRAL norm (largest singular value) of a 2-d tensor and "
+                         "the 2-norm of a 1-d one: norm kind `spectral` is not expressible in the exact rational model")
+            return "frobenius"
+        if node.value == 1:
+            if fn in ("torch.linalg.norm",):
+                raise _U(f"C16 lifter: {where}: `{fn}(.., 1)` is the matrix 1-norm (largest column sum) of a 2-d tensor and the "
+                         "vector 1-norm of a 1-d one: norm kind `matrix-1 (rank-dependent)` is not modelled")
+            return "l1Flat"
+        raise _U(f"C16 lifter: {where}: norm of order {s_} (kind `p-norm, p = {s_}`) is not modelled (irrational in general)")
+    if isinstance(node, ast.Constant) and isinstance(node.value, str):
+        if node.value in ("fro", "euclidean") and fn != "torch.linalg.norm":
+            return "frobenius"          # torch.norm(g, 'fro') / tf.norm(g, 'euclidean') without dim: the flattened 2-norm
+        if node.value == "nuc":
+            raise _U(f"C16 lifter: {where}: norm kind `nuclear` (sum of the singular values) is not expressible in the exact rational model")
+        raise _U(f"C16 lifter: {where}: `{fn}` with order {s_}: norm kind `{node.value}` (matrix norm, undefined for 1-d bias tensors) is not modelled")
+    if s_ in INF_SRCS:
+        if fn in ("torch.linalg.norm",):
+            raise _U(f"C16 lifter: {where}: `{fn}(.., inf)` is the largest ROW sum of a 2-d tensor: norm kind `matrix-inf (rank-dependent)` is not modelled")
+        return "maxAbs"
+    raise _U(f"C16 lifter: {where}: norm order `{s_}` is not a literal the lifter knows")
+
+
+def _square_of_g(node):
+    """g * g, g ** 2, g.pow(2), g.square(), torch.square(g), torch.pow(g, 2)"""
+    if isinstance(node, ast.BinOp) and isinstance(node.op, ast.Mult) and _is_g(node.left) and _is_g(node.right):
+        return True
+    if isinstance(node, ast.BinOp) and isinstance(node.op, ast.Pow) and _is_g(node.left) and _src(node.right) == "2":
+        return True
+    if isinstance(node, ast.Call) and not node.keywords:
+        nm = _call_name(node)
+        if isinstance(node.func, ast.Attribute) and _is_g(node.func.value):
+            return (node.func.attr == "square" and not node.args) or \
+                (node.func.attr == "pow" and len(node.args) == 1 and _src(node.args[0]) == "2")
+        if nm in SQUARE_FUNCS and len(node.args) == 1 and _is_g(node.args[0]):
+            return True
+        if nm in ("torch.pow", "tensorflow.pow", "tf.pow") and len(node.args) == 2 and _is_g(node.args[0]) and _src(node.args[1]) == "2":
+            return True
+        if nm in ("torch.mul", "torch.multiply", "tensorflow.multiply", "tf.multiply") and len(node.args) == 2 \
+                and _is_g(node.args[0]) and _is_g(node.args[1]):
+            return True
+    return False
+
+
+def _abs_of_g(node):
+    """g.abs() / torch.abs(g) / abs(g)"""
+    if isinstance(node, ast.Call) and not node.keywords:
+        if isinstance(node.func, ast.Attribute) and node.func.attr in ("abs", "absolute") and not node.args and _is_g(node.func.value):
+            return True
+        if (_call_name(node) in ABS_FUNCS or _call_name(node) == "abs") and len(node.args) == 1 and _is_g(node.args[0]):
+            return True
+    return False
+
+
+def _reduce_all(node, funcs, method):
+    """`f(X)` for f in funcs, or `X.method()`, with NO axis argument -> X, else None"""
+    if isinstance(node, ast.Call) and not node.keywords:
+        if _call_name(node) in funcs and len(node.args) == 1:
+            return node.args[0]
+        if isinstance(node.func, ast.Attribute) and node.func.attr in method and not node.args \
+                and not isinstance(node.func.value, ast.Name):
+            return node.func.value
+    return None
+
+
+def classify_norm(node, where):
+    """NormKind of the expression whose value is added to `tiny` in the normalise line.  Only norms of the WHOLE tensor
+    `dW_LA[i]` that the exact rational model can express are lifted:
+        frobenius   sqrt of the sum of the squares of all entries (2-norm of the flattening; squared: rational)
+        l1Flat      sum of the absolute values of all entries
+        maxAbs      largest absolute value of an entry
+    Everything else is refused with the kind named."""
+    if not isinstance(node, ast.Call):
+        raise _U(f"C16 lifter: {where}: the normaliser `{_src(node)}` is not a norm call")
+    nm = _call_name(node)
+    kw = {k.arg: k.value for k in node.keywords}
+    if None in kw:
+        raise _U(f"C16 lifter: {where}: `**` arguments in the norm call `{_src(node)}`")
+    # ---- method form g.norm(..) is torch.norm(g, ..)
+    args = list(node.args)
+    if isinstance(node.func, ast.Attribute) and node.func.attr == "norm" and _is_g(node.func.value):
+        nm, args = "torch.norm", [node.func.value] + args
+    if nm in MATRIX_NORM_FUNCS:
+        raise _U(f"C16 lifter: {where}: `{nm}` is a MATRIX norm (default 'fro'; 2 = spectral, 'nuc' = nuclear) and is undefined "
+                 "for the 1-d bias tensors: norm kind `matrix_norm` is not modelled")
+    if nm in NORM_FUNCS:
+        if not args or not _is_g(args[0]):
+            raise _U(f"C16 lifter: {where}: the norm is not taken of dW_LA[i]: {_src(node)}")
+        for bad in ("dim", "axis", "keepdim", "keepdims", "dtype", "out"):
+            if bad in kw:
+                what = "per-axis norm (one norm per row/column, not one number per tensor)" if bad in ("dim", "axis", "keepdim", "keepdims") \
+                    else f"`{bad}=` changes the arithmetic"
+                raise _U(f"C16 lifter: {where}: `{_src(node)}`: norm kind `{bad}=...`: {what}; not modelled")
+        if len(args) > 2:
+            raise _U(f"C16 lifter: {where}: `{_src(node)}`: positional dim/axis argument: norm kind `per-axis` is not modelled")
+        okw = "p" if nm == "torch.norm" else "ord"
+        extra = set(kw) - {okw}
+        if extra:
+            raise _U(f"C16 lifter: {where}: `{_src(node)}`: unknown keyword(s) {sorted(extra)} of the norm call")
+        if len(args) == 2 and okw in kw:
+            raise _U(f"C16 lifter: {where}: `{_src(node)}`: the order is given twice")
+        order = args[1] if len(args) == 2 else kw.get(okw)
+        if order is None:
+            return "frobenius"      # every one of these functions defaults to the 2-norm of the flattened tensor
+        return _order_kind(order, nm, where)
+    # ---- hand-written reductions over the whole tensor
+    inner = _reduce_all(node, SQRT_FUNCS, ("sqrt",))
+    if inner is not None:
+        sq = _reduce_all(inner, SUM_FUNCS, ("sum",))
+        if sq is not None and _square_of_g(sq):
+            return "frobenius"
+    ab = _reduce_all(node, SUM_FUNCS, ("sum",))
+    if ab is not None and _abs_of_g(ab):
+        return "l1Flat"
+    ab = _reduce_all(node, MAX_FUNCS, ("max", "amax"))
+    if ab is not None and _abs_of_g(ab):
+        return "maxAbs"
+    raise _U(f"C16 lifter: {where}: the normaliser `{_src(node)}` is not a norm of dW_LA[i] of a kind the lifter knows "
+             "(frobenius / l1Flat / maxAbs)")
+
+
 def _arith(node, env):
     """closed arithmetic over the named scalars/tensor coordinates -> Lean source"""
     if isinstance(node, ast.BinOp) and type(node.op) in (ast.Add, ast.Sub, ast.Mult, ast.Div):
@@ -197,11 +350,10 @@ def lift_engine(repo, rel, cls):
         # `tiny + norm(..)`: addition of two floats commutes bit for bit; matched (and emitted) as `norm(..) + tiny`
         v = ast.BinOp(left=v.left, op=v.op, right=ast.BinOp(left=v.right.right, op=ast.Add(), right=v.right.left))
     ok = (isinstance(v, ast.BinOp) and isinstance(v.op, ast.Div) and isinstance(v.right, ast.BinOp)
-          and isinstance(v.right.op, ast.Add) and isinstance(v.right.left, ast.Call)
-          and _call_name(v.right.left) in ("torch.norm", "tensorflow.norm", "tf.norm", "torch.linalg.norm")
-          and len(v.right.left.args) == 1 and not v.right.left.keywords and _is_sub(v.right.left.args[0], "dW_LA"))
+          and isinstance(v.right.op, ast.Add) and isinstance(v.right.left, ast.Call) and _is_sub(v.left, "dW_LA"))
     if not ok:
         raise _U(f"C16 lifter: {rel}: normalise line of unknown shape: {_src(v)}")
+    norm_kind = classify_norm(v.right.left, rel)
     tiny_kind = classify_tiny(v.right.right)
     env_unit = {"dW_LA[i]": "dW_LA", _src(v.right.left): "norm", _src(v.right.right): "tiny"}
     unit_expr = _arith(v, env_unit)
@@ -210,7 +362,7 @@ def lift_engine(repo, rel, cls):
                 "self.base.alpha": "alpha"}
     grad_expr = _arith(s_grad.value, env_grad)
     # the tensors the loop reads must be the two gradient lists of the predictor's parameters
-    return dict(inner=inner_kind, tiny=tiny_kind, unit=unit_expr, grad=grad_expr,
+    return dict(inner=inner_kind, tiny=tiny_kind, norm=norm_kind, unit=unit_expr, grad=grad_expr,
                 src_unit=_src(s_unit), src_proj=_src(s_proj), src_grad=_src(s_grad))
 
 
@@ -255,12 +407,20 @@ def adv_projection(repo):
            "inductive InnerKind where", "  | frobenius", "  | sumInner", "deriving DecidableEq, Repr", "",
            "/-- which `tiny` is added to the float32 norm: the float64 one (2.2e-308) underflows to 0 in float32",
            "    arithmetic, so a zero gradient tensor is normalised as 0/0. -/",
-           "inductive TinyKind where", "  | float64", "  | float32", "deriving DecidableEq, Repr", ""]
+           "inductive TinyKind where", "  | float64", "  | float32", "deriving DecidableEq, Repr", "",
+           "/-- which norm of the WHOLE tensor `dW_LA[i]` the normalise line divides by:",
+           "    `frobenius` = sqrt of the sum of the squares of all entries (2-norm of the flattening: `torch.norm(g)`, `g.norm()`,",
+           "    `torch.linalg.norm(g)`, `torch.linalg.vector_norm(g)`, `tensorflow.norm(g)`, `sqrt(sum(g*g))`);",
+           "    `l1Flat` = sum of the absolute values (`torch.norm(g, p=1)`, `g.abs().sum()`);",
+           "    `maxAbs` = largest absolute value (`torch.norm(g, p=float('inf'))`, `g.abs().max()`).",
+           "    Spectral / nuclear / per-axis (`dim=`) / rank-dependent `torch.linalg.norm(g, ord)` norms are REFUSED by the lifter. -/",
+           "inductive NormKind where", "  | frobenius", "  | l1Flat", "  | maxAbs", "deriving DecidableEq, Repr", ""]
     meta = {}
     for eng, rel, cls in ENGINES:
         r = lift_engine(repo, rel, cls)
-        meta[eng] = {"inner": r["inner"], "tiny": r["tiny"]}
+        meta[eng] = {"inner": r["inner"], "tiny": r["tiny"], "norm": r["norm"]}
         actual_unit_src = r["src_unit"]
+        norm, src_norm = _pin(eng + "Norm", "." + r["norm"], r["src_unit"])
         inner, r["src_proj"] = _pin(eng + "Inner", "." + r["inner"], r["src_proj"])
         tiny, r["src_unit"] = _pin(eng + "Tiny", "." + r["tiny"], r["src_unit"])
         r["inner"], r["tiny"] = inner[1:], tiny[1:]
@@ -272,6 +432,8 @@ def adv_projection(repo):
                 f"def {eng}Inner : InnerKind := .{r['inner']}", "",
                 f"/-- {rel}: `{r['src_unit']}` -/",
                 f"def {eng}Tiny : TinyKind := .{r['tiny']}", "",
+                f"/-- {rel}: `{src_norm}` -/",
+                f"def {eng}Norm : NormKind := {norm}", "",
                 f"def {eng}Unit (dW_LA norm tiny : Rat) : Rat := {r['unit']}", "",
                 f"/-- {rel}: `{r['src_grad']}` (per coordinate) -/",
                 f"def {eng}Grad (dW_LP unit_dW_LA dW_LA proj alpha : Rat) : Rat := {r['grad']}", ""]
